@@ -49,8 +49,10 @@ class EventDebouncer(BaseThread):
     def run(self) -> None:
         with self._cond:
             while True:
-                # Wait for first event (or shutdown).
-                self._cond.wait()
+                # Wait for first event (or shutdown).  An event or stop() that arrived before
+                # this thread got here has already notified: only wait if there is nothing to do.
+                while not self._events and self.should_keep_running():
+                    self._cond.wait()
 
                 if self.debounce_interval_seconds:
                     # Wait for additional events (or shutdown) until the debounce interval passes.
